@@ -8,6 +8,7 @@ import subprocess
 import sys
 import time
 
+sys.setrecursionlimit(100000)   # generator outputs are conjunction chains thousands of nodes deep (JSON decoding recurses)
 ROOT = os.path.dirname(os.path.dirname(os.path.abspath(__file__)))
 SPEC = os.path.join(ROOT, "spec")
 WORK = os.path.join(ROOT, "work")
